@@ -445,11 +445,10 @@ pub open spec fn full_drain_inv<K, V>(f: Map<K, V>, t0: Map<K, V>, s: Seq<(K, V)
 //@end
 
 //@impl ascent internal | impl<K: Clone + Hash + Eq, V> RelFullIndexWrite for HashBrownRelFullIndexType<K, V>
-    open spec fn fw_inv(&self) -> bool { obeys_key_model::<K>() }
+    // hypothesis on the column type: Clone returns an equal value (as for every Copy / derive(Clone) tuple of such)
+    open spec fn fw_inv(&self) -> bool { obeys_key_model::<K>() && forall|a: K, b: K| #[trigger] call_ensures(K::clone, (&a,), b) ==> a == b }
     open spec fn fw_contains(&self, key: K) -> bool { self@.contains_key(key) }
-    open spec fn fw_inserted(pre: &Self, key: K, v: V, post: &Self) -> bool {
-        exists|k2: K| cloned(key, k2) && post@ == #[trigger] pre@.insert(k2, v)
-    }
+    open spec fn fw_inserted(pre: &Self, key: K, v: V, post: &Self) -> bool { post@ == pre@.insert(key, v) }
     open spec fn fw_unchanged(pre: &Self, post: &Self) -> bool { pre@ == post@ }
 //@end
 
